@@ -24,7 +24,7 @@ def tuplify(x):
 
 
 def doc_shard(ctx, profile, nexamples, idx, check, res, spaced=False, min_kinds=3, min_depth=2,
-              nontrivial=None, seed_salt=0):
+              nontrivial=None, seed_salt=0, max_buckets=3, shrink_budget=400):
     """Run `check(nodes, src, case, res)` over `nexamples` generated documents.
 
     check raises H.Violation; returns optional set of class labels."""
@@ -40,7 +40,8 @@ def doc_shard(ctx, profile, nexamples, idx, check, res, spaced=False, min_kinds=
                  classes=['kind:' + k for k in kinds] + list(labels) + ['profile:%s' % case['profile']])
 
     H.hyp_search(G.wfdoc(profile, counters), prop, nexamples, ctx.seed * 1000 + idx * 7 + seed_salt, res,
-                 known=getattr(ctx, 'known', None), keyfn=G.text_of, max_buckets=3, shrink_budget=400)
+                 known=getattr(ctx, 'known', None), keyfn=G.text_of, max_buckets=max_buckets,
+                 shrink_budget=shrink_budget)
     for k, v in counters.items():
         if k.startswith('exclude:'):
             res.excluded[k] += v
